@@ -942,7 +942,7 @@ fn systematic_operands(bytes: &[u8]) -> Vec<Corruption> {
             let mut v = bytes[..nd.start].to_vec();
             v.extend_from_slice(b"4294967295");
             v.extend_from_slice(&bytes[nd.end..]);
-            out.push(Corruption { kind: "number", path: sp, text: v, must_err: false });
+            out.push(Corruption { kind: "number", path: sp, text: v, must_err: false, oor: true });
         }
     }
     out
@@ -975,6 +975,8 @@ struct Corruption {
     text: Vec<u8>,
     /// the property demands Err for this one (bytecode names something the VM does not define)
     must_err: bool,
+    /// a number replaced by a value outside every table / code range
+    oor: bool,
 }
 
 fn corruptions(rng: &mut Rng, bytes: &[u8], n: usize) -> Vec<Corruption> {
@@ -1001,6 +1003,7 @@ fn corruptions(rng: &mut Rng, bytes: &[u8], n: usize) -> Vec<Corruption> {
                 path: short_path(p),
                 text: splice(nd.start, nd.end, &rep),
                 must_err: true,
+                oor: false,
             });
         }
     }
@@ -1023,12 +1026,13 @@ fn corruptions(rng: &mut Rng, bytes: &[u8], n: usize) -> Vec<Corruption> {
                         format!("{}", cur.wrapping_add(1))
                     }
                 };
-                out.push(Corruption { kind: "number", path: sp, text: splice(nd.start, nd.end, rep.as_bytes()), must_err: false });
+                let oor = rep == "4294967295" || rep == "1000000";
+                out.push(Corruption { kind: "number", path: sp, text: splice(nd.start, nd.end, rep.as_bytes()), must_err: false, oor });
             }
             2 if nd.kind == JK::Str => {
                 let mut rep = bytes[nd.start..nd.end - 1].to_vec();
                 rep.extend_from_slice(b"_x\"");
-                out.push(Corruption { kind: "string", path: sp, text: splice(nd.start, nd.end, &rep), must_err: false });
+                out.push(Corruption { kind: "string", path: sp, text: splice(nd.start, nd.end, &rep), must_err: false, oor: false });
             }
             3 if nd.key.is_some() => {
                 // drop the member (and one adjacent comma)
@@ -1040,13 +1044,13 @@ fn corruptions(rng: &mut Rng, bytes: &[u8], n: usize) -> Vec<Corruption> {
                 } else if s > 0 && bytes[s - 1] == b',' {
                     s -= 1;
                 }
-                out.push(Corruption { kind: "drop-field", path: sp, text: splice(s, e, b""), must_err: false });
+                out.push(Corruption { kind: "drop-field", path: sp, text: splice(s, e, b""), must_err: false, oor: false });
             }
             4 if nd.key.is_some() => {
                 let (ks, ke, k) = nd.key.clone().unwrap();
                 let rep = format!("\"{}_x\"", k);
                 let _ = ke;
-                out.push(Corruption { kind: "rename-key", path: sp, text: splice(ks, ke, rep.as_bytes()), must_err: false });
+                out.push(Corruption { kind: "rename-key", path: sp, text: splice(ks, ke, rep.as_bytes()), must_err: false, oor: false });
             }
             _ => {
                 // replace the value by a value of another JSON type
@@ -1057,7 +1061,7 @@ fn corruptions(rng: &mut Rng, bytes: &[u8], n: usize) -> Vec<Corruption> {
                     JK::Obj => b"[]",
                     JK::Lit => b"0",
                 };
-                out.push(Corruption { kind: "retype", path: sp, text: splice(nd.start, nd.end, rep), must_err: false });
+                out.push(Corruption { kind: "retype", path: sp, text: splice(nd.start, nd.end, rep), must_err: false, oor: false });
             }
         }
     }
@@ -2184,7 +2188,7 @@ fn check_program(
         cs.extend(systematic_operands(&bytes));
     }
     for c in cs {
-        let mut rp = replay(json!({"damage": c.kind, "path": c.path, "text": String::from_utf8_lossy(&c.text)}));
+        let mut rp = replay(json!({"damage": c.kind, "path": c.path, "text": String::from_utf8_lossy(&c.text), "out_of_range": c.oor}));
         if c.kind == "rename-global" && p.helper && !p.prelude {
             rp["wanted"] = json!(module_globals(&c.text));
             rp["defined"] = json!(["gvmod"]);
@@ -2383,7 +2387,14 @@ fn judge_damaged(
             out.case(&format!("globals {} {}", strs_sexp(&df), strs_sexp(&w)), pl);
             out.count(&format!("globals:{}", pl));
         }
-        if *kind == "number" && is_table_operand_path(path) && matches!(r, LoadOutcome::Panic(_) | LoadOutcome::Crash(_)) {
+        let died = match &r {
+            LoadOutcome::Panic(_) => true,
+            LoadOutcome::Crash(how) => how != "timeout", // a loop is not a range violation
+            _ => false,
+        };
+        // (an in-range change — e.g. another function of the same shape — can still crash the
+        // interpreter through a type confusion; no range check can see that)
+        if *kind == "number" && is_table_operand_path(path) && died && replay["out_of_range"].as_bool() == Some(true) {
             // whatever crashes the interpreter through a table / target operand is rejected by the
             // verifier specification
             if let Some(fs) = module_fn_sexp(&d.1) {
